@@ -77,9 +77,15 @@ package labelmap
 
 //@ guarded Data.MaxLabel, Data.MaxRepoLabel, Data.NextLabel by mlMu
 
+// Ghost gmax: the largest label this instance's max-label tracker has been told about or has issued
+// (a history variable: raised at the entry of updateMaxLabel and where newLabel picks its result).
 //@ func Data.updateMaxLabel
 //@   prop C12 C11
 //@   requires d != nil && d.MaxLabel != nil
+//@   ghost gmax uint64 = arbitrary()
+//@   ghostset at "d.mlMu.RLock()": gmax = ite(gmax >= label, gmax, label)
+//@   ensures gmax >= label && gmax >= old(gmax)
+//@   ensures err == nil ==> has(d.MaxLabel, v) && d.MaxLabel[v] >= label
 //@   lockset
 //@   interference
 //@   lockbalance
@@ -88,6 +94,7 @@ package labelmap
 //@   modifies *
 //@   assert at "d.MaxLabel[v] = label": !has(d.MaxLabel, v) || d.MaxLabel[v] < label
 //@   assert at "d.MaxRepoLabel = label": d.MaxRepoLabel < label
+//@   modifies ghost gmax
 
 //@ func Data.updateBlockMaxLabel
 //@   prop C12 C11
@@ -106,6 +113,11 @@ package labelmap
 //@ func Data.newLabel
 //@   prop C12 C11
 //@   requires d != nil && d.MaxLabel != nil
+//@   ghost gmax uint64 = arbitrary()
+//@   ghostset at "return d.NextLabel, nil": gmax = ite(gmax >= d.NextLabel, gmax, d.NextLabel)
+//@   ghostset at "return d.MaxRepoLabel, nil": gmax = ite(gmax >= d.MaxRepoLabel, gmax, d.MaxRepoLabel)
+//@   ensures gmax >= old(gmax)
+//@   ensures result1 == nil ==> gmax >= result0
 //@   lockset
 //@   interference
 //@   lockbalance
@@ -151,3 +163,15 @@ package labelmap
 //@   calls_havoc
 //@   modifies *
 //@   assert at "r, err := imageblk.GetROI(v, roiname, subvol)": int64(len(data)) == subvol.size.Prod() * 8
+
+// SplitSupervoxel: both labels the split introduces - given by the caller or freshly allocated - have been
+// reported to the max-label tracker before any voxel is touched (C12: a later NewLabel cannot re-issue them).
+//@ func Data.SplitSupervoxel
+//@   prop C12
+//@   requires d != nil && d.MaxLabel != nil
+//@   safety_off
+//@   requires_off
+//@   modifies *
+//@   ghost gmax uint64 = arbitrary()
+//@   assert at "split, err = dvid.ReadRLEs(r)": (splitlabel != 0 ==> splitSupervoxel == splitlabel) && (remainlabel != 0 ==> remainSupervoxel == remainlabel)
+//@   assert at "split, err = dvid.ReadRLEs(r)": gmax >= splitSupervoxel && gmax >= remainSupervoxel
